@@ -13,7 +13,7 @@ sender, and carried exactly the sender's current sequence -/
 theorem C06_authorised (s : BState) (t : EthTx) (x : Exec)
     (hadm : admitted (stepEth s t x).2.cls = true) :
     t.sig = .ok ∧ t.nonce = s.seq.get t.sender := by
-  rcases stepEth_cases s t x with ⟨_, h⟩ | ⟨_, _, h⟩ | ⟨_, _, code, _, h⟩ | ⟨_, _, hr, _, _⟩ | ⟨_, _, hr, _, _, _⟩ |
+  rcases stepEth_cases s t x with ⟨_, h⟩ | ⟨_, _, h⟩ | ⟨_, _, code, _, _, _, h⟩ | ⟨_, _, hr, _, _⟩ | ⟨_, _, hr, _, _, _⟩ |
     ⟨_, _, hr, _, _, _, _⟩ | ⟨_, _, hr, _, _, _, _⟩
   · rw [h] at hadm; simp [noOut, admitted] at hadm
   · rw [h] at hadm; simp [noOut, admitted] at hadm
@@ -31,7 +31,7 @@ theorem C06_seq_plus_one (s : BState) (t : EthTx) (x : Exec)
     (hadm : admitted (stepEth s t x).2.cls = true) :
     (stepEth s t x).1.seq.get t.sender = s.seq.get t.sender + 1 ∧
     ∀ a, a ≠ t.sender → (stepEth s t x).1.seq.get a = s.seq.get a := by
-  rcases stepEth_cases s t x with ⟨_, h⟩ | ⟨_, _, h⟩ | ⟨_, _, code, _, h⟩ | ⟨_, _, _, _, h⟩ | ⟨_, _, _, _, _, h⟩ |
+  rcases stepEth_cases s t x with ⟨_, h⟩ | ⟨_, _, h⟩ | ⟨_, _, code, _, _, _, h⟩ | ⟨_, _, _, _, h⟩ | ⟨_, _, _, _, _, h⟩ |
     ⟨_, _, _, _, _, _, h⟩ | ⟨_, _, _, _, _, _, h⟩ <;> rw [h] at hadm ⊢
   · simp [noOut, admitted] at hadm
   · simp [noOut, admitted] at hadm
